@@ -554,6 +554,9 @@ func (c *SpecCtx) call(x *ast.CallExpr) SpecVal {
 		}
 		n := c.inState(c.old)
 		return n.tr(x.Args[0])
+	case "panicking":
+		ft.keySort("$panicking", "Bool")
+		return SpecVal{T: ft.get(c.st, "$panicking"), Typ: boolType, Sort: "Bool"}
 	case "clocknow":
 		ft.keySort("$clock", "Int")
 		return SpecVal{T: ft.get(c.st, "$clock"), Typ: intType, Sort: "Int"}
